@@ -8,12 +8,14 @@ CONSTANTS
   Ctl <- C_none
   Closer = FALSE
   Rd <- R_pong_pongD
+  Fault <- F_none
   ControlTakesLock = TRUE
   FlushAtomic = TRUE
   LatchChecked = TRUE
   CloseLatches = TRUE
   TimeoutReleases = FALSE
   HandlerControlPath = FALSE
+  TimeoutFaultLatches = TRUE
   Fifo = TRUE
   OnlyBad = TRUE
   Family = "atk_rdata_client"
